@@ -40,6 +40,9 @@ func (u *Unit) argShape(e ast.Expr, at ast.Node, depth int) string {
 			if s := u.paramShape(o); s != "" {
 				return s
 			}
+			if s := u.forIndexShape(o); s != "" {
+				return s
+			}
 			if depth < 4 {
 				ds := u.reachingDefs(o, at)
 				if len(ds) == 1 && ds[0].rhs != nil {
@@ -423,4 +426,42 @@ func (u *Unit) condContext(n ast.Node) string {
 		parts = append(parts, br+"("+u.argShape(s.Cond, s.Cond, 3)+")")
 	}
 	return strings.Join(parts, ",")
+}
+
+// forIndexShape: the index of `for i := 0; i < N; i++` is rendered like the key of `for i := range N`
+// (and `i < len(xs)` like the key of `range xs`), so the two loop forms give the same operand shapes.
+func (u *Unit) forIndexShape(v *types.Var) string {
+	var out string
+	ast.Inspect(u.Fn.Decl.Body, func(n ast.Node) bool {
+		if out != "" {
+			return false
+		}
+		fs, ok := n.(*ast.ForStmt)
+		if !ok || fs.Init == nil || fs.Cond == nil {
+			return true
+		}
+		as, ok := fs.Init.(*ast.AssignStmt)
+		if !ok || len(as.Lhs) != 1 {
+			return true
+		}
+		id := identOf(as.Lhs[0])
+		if id == nil || u.Info.Defs[id] != v {
+			return true
+		}
+		be, ok := ast.Unparen(fs.Cond).(*ast.BinaryExpr)
+		if !ok || be.Op != token.LSS || !isVarIdent(u.Info, be.X, v) {
+			return true
+		}
+		y := ast.Unparen(be.Y)
+		if c, ok := y.(*ast.CallExpr); ok && len(c.Args) == 1 {
+			if fid, ok := ast.Unparen(c.Fun).(*ast.Ident); ok {
+				if b, ok := u.Info.Uses[fid].(*types.Builtin); ok && b.Name() == "len" {
+					y = c.Args[0]
+				}
+			}
+		}
+		out = "key(" + u.argShape(y, fs, 3) + ")"
+		return false
+	})
+	return out
 }
